@@ -31,10 +31,13 @@ import (
 
 // R is the single source of choice during plan generation. No draw ever
 // happens while a plan executes.
-type R struct{ *rand.Rand }
+type R struct {
+	*rand.Rand
+	Seed, Run uint64 // what this stream was derived from (engines may enumerate over Run)
+}
 
 func newR(seed uint64, run uint64) *R {
-	return &R{rand.New(rand.NewPCG(seed, run*0x9E3779B97F4A7C15+0xD1B54A32D192ED03))}
+	return &R{rand.New(rand.NewPCG(seed, run*0x9E3779B97F4A7C15+0xD1B54A32D192ED03)), seed, run}
 }
 
 func (r *R) Intn(n int) int {
